@@ -905,6 +905,36 @@ class _ScanLoop:
         return st, st
 
 
+@rule("C01.python-errors-translated", min_instances=2, props=["C11"])
+def python_errors_translated(ctx):
+    """whatever Python's parser raises for embedded code leaves pyparser.parse as a SyntaxException: the handler is as wide as Exception and reads nothing from the caught exception that only a SyntaxError has"""
+    db = ctx.db
+    pp = db.func("pyparser.parse")
+    hs = [h for t in walk_func(pp) if isinstance(t, ast.Try) for h in t.handlers]
+    ctx.require(hs, "pyparser.parse has no except clause (anchor)")
+    h = hs[0]
+    wide = h.type is None or src(h.type) in ("Exception", "BaseException")
+    ctx.check(wide, "handler-wide", db.where(h), "pyparser.parse catches only %s: other failures of Python's parser (ValueError for NUL bytes, MemoryError/RecursionError for deep nesting, UnicodeEncodeError) escape untranslated" % (src(h.type) if h.type else ""), "catches Exception")
+    # attribute reads on the caught exception, in the handler and the helpers it hands the exception to
+    reads = []
+    scopes = [(h, h.name)] if h.name else []
+    for c in ast.walk(h):
+        if isinstance(c, ast.Call) and h.name and any(isinstance(a, ast.Name) and a.id == h.name for a in c.args):
+            d = dotted(c.func)
+            if d and db.has("pyparser." + d):
+                f = db.func("pyparser." + d)
+                i = [k for k, a in enumerate(c.args) if isinstance(a, ast.Name) and a.id == h.name][0]
+                if i < len(f.args.args):
+                    scopes.append((f, f.args.args[i].arg))
+    for sc, nm in scopes:
+        for n in ast.walk(sc):
+            if isinstance(n, ast.Attribute) and isinstance(n.value, ast.Name) and n.value.id == nm and isinstance(n.ctx, ast.Load) and not n.attr.startswith("__") and n.attr not in ("args", "with_traceback"):
+                reads.append(n)
+    ctx.check(not reads or not wide, "exception-attributes", db.where(reads[0]) if reads else db.where(h), "the handler reads `%s` from whatever exception was caught: only SyntaxError has that attribute, for any other failure of Python's parser an AttributeError escapes instead of a SyntaxException" % (src(reads[0]) if reads else ""), "attributes of the caught exception are read with getattr(..., default) only")
+    rs = [r for r in ast.walk(h) if isinstance(r, ast.Raise) and isinstance(r.exc, ast.Call)]
+    ctx.check(bool(rs) and all((dotted(r.exc.func) or "").endswith("SyntaxException") for r in rs), "raises-syntax-exception", db.where(h), "the handler does not raise exceptions.SyntaxException", "raises SyntaxException")
+
+
 @rule("C01.scanner-loops", min_instances=2)
 def scanner_loops(ctx):
     """the line scanners the lexer runs over every <% %> block (and the printer over every emitted block) shorten the line on every trip round their loop: they terminate on every input"""
